@@ -392,7 +392,12 @@ def object_shapes(nm: Namer) -> Dict[str, Callable[[T, Ctx], Optional[T]]]:
         if isinstance(rx, Con) and rx.base == INT:
             # a second, looser layer of the same keywords over a constrained type (one of whose bounds is 0):
             # both layers hold, i.e. the strictest bound of each keyword
-            return Obj("dataclass", nm("O"), (F("a", x, cons=(("min", -2), ("max", 5))),))
+            # (field b: a layer which does not set the keyword whose inner bound is 0)
+            return Obj(
+                "dataclass",
+                nm("O"),
+                (F("a", x, cons=(("min", -2), ("max", 5))), F("b", x, default="0", has_default=True, default_value=0, cons=(("max", 5),))),
+            )
         if isinstance(rx, (Lit, EnumT)):
             # constraints on a literal / enum position: checked on the datum like anywhere else
             return Obj("dataclass", nm("O"), (F("a", x, cons=(("max", 1), ("pattern", "^a"))),))
